@@ -57,6 +57,29 @@ TECHNIQUE = ('path-sensitive taint with callee summaries; regex-language equalit
              '(format string + operand roles); dependence (non-interference) flow for line terminator / indentation')
 
 NAME_CLASS = '[-a-zA-Z0-9_]'
+
+
+def _mod(ctx: RuleCtx) -> Module:
+    """The anchored module, with type aliases in parameter / return annotations expanded (`confdata: _ConfDataLike` where
+    `_ConfDataLike = T.Union[..., 'ConfigurationData']` at module level or under `if T.TYPE_CHECKING:`): the rules find parameters by
+    the role their annotation gives them, however the annotation is spelled."""
+    import copy
+    mod = ctx.repo.module(U)
+    if getattr(mod, '_c14_aliases_expanded', False):
+        return mod
+    for _ in range(3):
+        for f in mod.funcs().values():
+            slots = [(a, 'annotation') for a in f.args.posonlyargs + f.args.args + f.args.kwonlyargs] + [(f, 'returns')]
+            for obj, field in slots:
+                ann = getattr(obj, field)
+                if isinstance(ann, ast.Constant) and isinstance(ann.value, str) and ann.value.isidentifier() and mod.has_assign(ann.value):
+                    ann = ast.Name(id=ann.value, ctx=ast.Load())
+                if isinstance(ann, ast.Name) and mod.has_assign(ann.id):
+                    val = mod.assign_value(ann.id)
+                    if isinstance(val, (ast.Subscript, ast.Attribute, ast.Name, ast.Constant)):
+                        setattr(obj, field, copy.deepcopy(val))
+    mod._c14_aliases_expanded = True  # type: ignore[attr-defined]
+    return mod
 PIPELINE_ROOTS = ['do_conf_file', 'do_conf_str', 'do_replacement']
 
 
@@ -110,7 +133,7 @@ def r1(ctx: RuleCtx) -> None:
     if hit != ['define', 'twice']:
         raise AnalysisError(f'C14.R1 self-check: the built-in rescanning example is not recognised (flagged: {hit})')
 
-    mod = ctx.repo.module(U)
+    mod = _mod(ctx)
     for r in PIPELINE_ROOTS:
         mod.func(r)
     an, sinks = _r1_findings(mod, PIPELINE_ROOTS)
@@ -758,7 +781,7 @@ def _r2_callback(ctx: RuleCtx, mod: Module, kinds: T.Dict[str, T.Any], gd: T.Dic
 
 
 def r2(ctx: RuleCtx) -> None:
-    mod = ctx.repo.module(U)
+    mod = _mod(ctx)
     pat = _variable_regex(ctx, mod, 'meson')
     tree, alts = _alternatives(pat)
     gfn = mod.func('get_variable_regex')
@@ -871,7 +894,7 @@ def _scalar_ref(bool_forms: T.Set[str], qn: str, with_unset: bool = True) -> T.C
 
 
 def r3(ctx: RuleCtx) -> None:
-    mod = ctx.repo.module(U)
+    mod = _mod(ctx)
     total = 0
     # @VAR@ (meson): str -> value, int -> str(value), bool -> str(value) + deprecation notice, other -> error
     qn, fn, tab, m = _callback_table(mod)
@@ -963,7 +986,7 @@ def r3(ctx: RuleCtx) -> None:
         if isinstance(n, ast.Call) and isinstance(n.func, ast.Name):
             q = mod.has_func(f'{qn}.{n.func.id}') and f'{qn}.{n.func.id}' or (mod.has_func(n.func.id) and n.func.id) or None
             # the helper that renders the right-hand side: a function of this module that is given the line
-            if q and q not in scans and any(isinstance(a, ast.Name) and a.id == ln for a in n.args):
+            if q and q not in scans and any(ln in names_in(a) for a in n.args):
                 rhs_calls.setdefault(q, n)
                 return 'RHS'
         return None
@@ -1099,6 +1122,34 @@ def _cmake_rhs(ctx: RuleCtx, mod: Module, qn: str, outer: str, ln: str, call: as
                     loop_rows += 2
                     ctx.require(s_ok and u_ok, f'{qn}: every token of `{norm(g.iter)}` -> its value when set, else the token', mod, qn, 'rendering: cmakedefine tokens (comprehension)',
                                 f'a token of the right-hand side is rendered as `{short(comp.elt)}`; documented: the value when the token is a set name, else the token itself', r.path.events[-1].node)
+            if not ok_c and isinstance(body, ast.Call) and isinstance(body.func, ast.Name) and len(body.args) == 1 and not body.keywords and norm(body.args[0]) == norm(elem):
+                # the element is rendered by a one-parameter helper (closure or module function): read the helper's own table
+                hq = next((c_ for c_ in (f'{qn}.{body.func.id}', f'{outer}.{body.func.id}', body.func.id) if mod.has_func(c_)), None)
+                if hq is not None and len(mod.func(hq).args.args) == 1:
+                    hf = mod.func(hq)
+                    htab = _table(mod, hf, handlers=True, name=hq, base=dict(env, **{hf.args.args[0].arg: elem}))
+                    hconfs = confs | _confs(mod, outer)
+                    _guard_ok(hf, hconfs)
+                    good_all = bool(htab.rows)
+                    for hr in T.cast(T.List[shape.XRow], htab.rows):
+                        if hr.outcome[0] != 'return' or hr.value is None:
+                            raise Undecided(f'{hq}: a row does not return: {hr!r}')
+                        member = [v_ for a_, v_ in hr.conds.items() if a_.kind == 'in' and a_.args[0] == norm(elem) and a_.args[1] in hconfs]
+                        unset = bool(hr.handlers) or (bool(member) and not member[-1])
+                        token_roles.add(unset)
+                        loop_rows += 1
+                        hps = [p_ for p_ in shape.flatten(shape.parts(hr.value)) if not (isinstance(p_, shape.Lit) and p_.text == '')]
+                        if len(hps) == 1 and isinstance(hps[0], shape.Op) and not hps[0].conv:
+                            if unset:
+                                good = norm(hps[0].node) == norm(elem)
+                            else:
+                                good = (_as_value(hps[0].node, hconfs) or ('', 1)) == (norm(elem), 0)
+                        else:
+                            good = False
+                        good_all = good_all and good
+                    ok_c = True
+                    ctx.require(good_all, f'{qn}: every token of `{norm(g.iter)}` -> {hq}: its value when set, else the token', mod, hq, 'rendering: cmakedefine tokens (helper)',
+                                f'{hq} renders a token of the right-hand side differently from: the value when the token is a set name, else the token itself', hf)
             if not ok_c:
                 raise Undecided(f'{qn}: token list `{short(comp)}`: comprehension shape not understood')
             continue
@@ -1445,7 +1496,7 @@ def _line_loop(ctx: RuleCtx, mod: Module, qn: str) -> T.Set[str]:
 
 
 def r4a(ctx: RuleCtx) -> None:
-    mod = ctx.repo.module(U)
+    mod = _mod(ctx)
     for qn, known in LINE_LOOPS.items():
         used = _line_loop(ctx, mod, qn)
         if not used <= known:
@@ -1474,7 +1525,7 @@ def _open_calls(fn: ast.AST) -> T.List[T.Tuple[ast.With, ast.Call, str]]:
 
 
 def r4b(ctx: RuleCtx) -> None:
-    mod = ctx.repo.module(U)
+    mod = _mod(ctx)
     fn = mod.func('do_conf_file')
     fl = Flow(fn)
     opens = _open_calls(fn)
@@ -1606,7 +1657,7 @@ def _r4c_define(ctx: RuleCtx, mod: Module, qn: str) -> None:
 
 
 def r4c(ctx: RuleCtx) -> None:
-    mod = ctx.repo.module(U)
+    mod = _mod(ctx)
     # replacement transformer (meson): single scan of the parameter, and no alternative can match blank/CR/LF
     call, cbname, text = _scan_call(mod, 'do_replacement_meson')
     fn = mod.func('do_replacement_meson')
@@ -1643,7 +1694,7 @@ def r4c(ctx: RuleCtx) -> None:
 # R5  generated header
 # ---------------------------------------------------------------------------------------------
 def r5(ctx: RuleCtx) -> None:
-    mod = ctx.repo.module(U)
+    mod = _mod(ctx)
     fn = mod.func('_dump_c_header')
     conf = [a.arg for a in fn.args.args if a.annotation is not None and 'ConfigurationData' in norm(a.annotation)]
     outp = [a.arg for a in fn.args.args if a.annotation is not None and 'TextIO' in norm(a.annotation)]
@@ -1822,7 +1873,7 @@ def _bind_call(call: ast.Call, fn: ast.FunctionDef) -> T.Optional[T.Dict[str, as
 
 
 def r6(ctx: RuleCtx) -> None:
-    mod = ctx.repo.module(U)
+    mod = _mod(ctx)
     fns = _pipeline(mod, PIPELINE_ROOTS + HEADER_ROOTS)
     n = 0
     handed: T.Set[str] = set()
@@ -1940,6 +1991,44 @@ def r6(ctx: RuleCtx) -> None:
 def _indent_sense(e: ast.AST, var: str, mod: Module, qn: str) -> str:
     """'blind' (the truth of e cannot depend on the leading blanks of `var`), 'sensitive' (a test anchored at the first character of the
     unstripped line), or 'unknown'."""
+    # a regex test on the whole line: decided from the language of the (constant) pattern
+    def const_str(x: ast.AST) -> T.Optional[str]:
+        if isinstance(x, ast.Constant) and isinstance(x.value, str):
+            return x.value
+        if isinstance(x, ast.BinOp) and isinstance(x.op, ast.Add):
+            a_, b_ = const_str(x.left), const_str(x.right)
+            return a_ + b_ if a_ is not None and b_ is not None else None
+        return None
+    rcalls = [c for c in ast.walk(e) if isinstance(c, ast.Call) and attr_chain(c.func) in ('re.search', 're.match', 're.fullmatch') and len(c.args) >= 2
+              and isinstance(c.args[1], ast.Name) and c.args[1].id == var]
+    if rcalls:
+        verdicts_ = set()
+        for c in rcalls:
+            pat = const_str(c.args[0])
+            if pat is None or len(c.args) > 2 or c.keywords:
+                return 'unknown'
+            items = list(rx.parse(pat))
+            anchored = attr_chain(c.func) != 're.search'
+            while items and items[0][0] is rx.sre_c.AT:
+                if str(items[0][1]) in ('AT_BEGINNING', 'AT_BEGINNING_STRING'):
+                    anchored = True
+                items.pop(0)
+            if not anchored:
+                verdicts_.add('unanchored')
+                continue
+            if not items:
+                return 'unknown'
+            op, av = items[0]
+            if op is rx.sre_c.MAX_REPEAT and av[0] == 0 and av[1] is rx.sre_c.MAXREPEAT and len(av[2]) == 1 and av[2][0][0] is rx.sre_c.IN \
+                    and rx._in_match(av[2][0][1], ' ', False) and rx._in_match(av[2][0][1], '\t', False):
+                verdicts_.add('blind')
+            elif op is rx.sre_c.LITERAL and not chr(av).isspace():
+                verdicts_.add('sensitive')
+            else:
+                return 'unknown'
+        for v_ in ('unanchored', 'sensitive', 'blind'):
+            if v_ in verdicts_:
+                return v_
     ld = LineDep.__new__(LineDep)
     ld.mod, ld.qn, ld.fn, ld.depth = mod, qn, mod.func(qn), 3
     ld.env, ld.ctrl, ld.returns = {var: frozenset({'T', 'I'})}, frozenset(), []
@@ -1983,7 +2072,7 @@ def _gap_anchored(e: ast.AST, line: str) -> T.Optional[ast.AST]:
 
 
 def r7(ctx: RuleCtx) -> None:
-    mod = ctx.repo.module(U)
+    mod = _mod(ctx)
     verdicts: T.Dict[str, str] = {}
     tolerant: T.Dict[str, str] = {}
     for outer_qn, known in LINE_LOOPS.items():
@@ -2035,11 +2124,16 @@ def r7(ctx: RuleCtx) -> None:
                 ctx.violation(mod, qn, e, f'the test `{txt}` that sends a line to {define[0]} is anchored at the first character of the unstripped line: an indented '
                               f'directive is not recognised and is copied out as ordinary text, although the define transformers tokenise with split() and the sibling '
                               f'loop tolerates leading blanks', loop)
+            elif sense == 'unanchored':
+                worst = 'unanchored'
+                ctx.violation(mod, qn, e, f'the test `{txt}` that sends a line to {define[0]} searches the directive anywhere in the line: a line with other text in front of it '
+                              f'(`int x; #cmakedefine Y`) is handed to {define[0]}, which takes the second blank-separated token of the whole line for the name; the sibling loop '
+                              'and the transformer only know directives at the start of a line (after blanks)', loop)
             elif sense == 'unknown':
                 unknown.append(txt)
             else:
                 ctx.ok(f'{qn}: dispatch test `{txt}` cannot depend on the leading blanks of the line')
-        if unknown and worst != 'sensitive':
+        if unknown and worst not in ('sensitive', 'unanchored'):
             raise Undecided(f'{qn}: cannot tell whether the dispatch test(s) {unknown} depend on the indentation of the line')
         verdicts[outer_qn] = worst
         for txt, e in atoms.items():
@@ -2125,7 +2219,7 @@ def _lin(e: ast.AST) -> T.Optional[T.Tuple[str, int]]:
 
 
 def r8(ctx: RuleCtx) -> None:
-    mod = ctx.repo.module(U)
+    mod = _mod(ctx)
     host = 'do_replacement_cmake'
     mod.func(host)
     confs = _confs(mod, host)
@@ -2204,7 +2298,7 @@ def r8(ctx: RuleCtx) -> None:
 # R9  tokens of a directive line are only indexed under a length guard (exception escape, K9; sibling agreement with #mesondefine)
 # ---------------------------------------------------------------------------------------------
 def r9(ctx: RuleCtx) -> None:
-    mod = ctx.repo.module(U)
+    mod = _mod(ctx)
     n = 0
     unguarded: T.Dict[T.Tuple[str, str], T.Tuple[ast.Subscript, str, T.List[str]]] = {}
     for tq in sorted({k for known in LINE_LOOPS.values() for k in known if 'define' in k}):
@@ -2273,7 +2367,7 @@ def r9(ctx: RuleCtx) -> None:
 # R10  cmake scanner: after a placeholder is replaced, scanning resumes behind the inserted value (decision table of the loop body)
 # ---------------------------------------------------------------------------------------------
 def r10(ctx: RuleCtx) -> None:
-    mod = ctx.repo.module(U)
+    mod = _mod(ctx)
     host = 'do_replacement_cmake'
     mod.func(host)
     n = 0
